@@ -2,7 +2,8 @@
    Property theorems only; proofs live in Proofs/HeapLimitProofs.v.  Constants (MIN_HEAP_BYTES, MAX_ALLOC,
    layout sizes) are regenerated from /repo by tools/extractors/c10.py on every run. *)
 From Coq Require Import String.
-From Aelys Require Import Base.Tactics Extracted.HeapConsts Extracted.HeapSites Model.HeapLimit Model.HeapLimitObs Proofs.HeapLimitProofs.
+From Aelys Require Import Base.Tactics Extracted.HeapConsts Extracted.HeapSites Extracted.HeapEstimator Model.HeapLimit Model.HeapLimitObs
+  Model.HeapAccount Proofs.HeapLimitProofs Proofs.HeapAccountProofs.
 Local Open Scope N_scope.
 
 (* ensure_heap_capacity: for all u64 inputs the answer is Ok exactly when the UNBOUNDED sum fits *)
@@ -154,6 +155,33 @@ Proof. exact loop_run_ok. Qed.
 Theorem concat_with_collector_keeps_limit : forall (n : N) (m : mem) (slen : N),
   Inv m -> cst_ok (snd (concat_gc n m slen)).
 Proof. exact concat_gc_ok. Qed.
+Theorem churn_with_collector_keeps_limit : forall (n : N) (allocs : list (N * bool)) (m : mem),
+  Inv m -> chst_ok (snd (churn_run n allocs m)).
+Proof. exact churn_run_ok. Qed.
+
+(* ---- the counter the limit is checked against is the sum of the estimates of the objects on the heap: Heap::alloc
+   adds the estimate an object has when it is allocated, Heap::sweep subtracts the estimate it has when it dies.  For
+   ANY estimator table without an arm that reads unaccounted state, after any history of guarded allocations, state
+   changes (accounted through account_growth exactly for the arms of class 1) and collections: counter = sum over the
+   heap, and it is within the limit *)
+Theorem accounting_exact_for_accounted_estimators : forall (tbl : list (N * string * N)),
+  no_unaccounted_state tbl = true -> forall (limit : N) (steps : list hstep), acc_ok tbl limit (hrun tbl limit steps).
+Proof. exact hrun_ok. Qed.
+(* ... and the table regenerated from Heap::estimate_object_size (Extracted.HeapEstimator) is such a table: the estimate
+   of every kind is independent of state, or (Vec) every change of it goes through account_growth.  A collection that
+   keeps nothing brings the counter back to zero *)
+Theorem sweep_subtracts_what_alloc_added : forall (limit : N) (steps : list hstep),
+  hbytes (hrun estimator_arms limit steps) = total estimator_arms (objs (hrun estimator_arms limit steps)) /\
+  total estimator_arms (objs (hrun estimator_arms limit steps)) <= limit /\
+  hbytes (hstep_run estimator_arms limit (hrun estimator_arms limit steps)
+            (HSweep (repeat false (List.length (objs (hrun estimator_arms limit steps)))))) = 0.
+Proof. exact accounting_exact_extracted. Qed.
+(* the hypothesis is needed: with an arm whose estimate changes without accounting (an upvalue that is one word larger
+   once closed) the counter ends below what the heap holds -- 92 accounted, 100 held *)
+Example unaccounted_state_breaks_accounting :
+  let h := hrun drift_table 1000 drift_steps in
+  objs h = [mkO 5 100 0] /\ total drift_table (objs h) = 100 /\ hbytes h = 92.
+Proof. exact unaccounted_state_drifts. Qed.
 
 (* the former counterexamples on the repaired definitions (limit 1 MiB, 100 000 bytes in use, host grants 2^40):
    refused by the check, nothing allocated; 2000 pushes are charged 2047 * 8 bytes; reserve beyond the limit is
